@@ -98,4 +98,8 @@ func (idGenerator *IDGenerator) updateOffset() {
 func (idGenerator *IDGenerator) setOffset(newoffset int64) {
 	idGenerator.offset = newoffset
 	idGenerator.offset = idGenerator.offset % idGenerator.valueRange
+	if idGenerator.offset < 0 {
+		// Go's % keeps the sign of the dividend: keep the scan offset inside [0, valueRange)
+		idGenerator.offset += idGenerator.valueRange
+	}
 }
